@@ -22,11 +22,11 @@ Init ==
                r = Mk(op, tg, em, md5, m, "na", ca, "na", "na", "na", cp, d, "exact")
          \/ \E s \in RW, ca \in CshAlgo(Algos), cp \in RawCP :
                r = Mk(op, tg, em, md5, "signed", s, ca, "na", "na", "na", cp, d, "exact")
-         \/ \E ca \in CshAlgo(Algos), cs \in CSigs, cp \in CorrPos, h \in {"exact", "larger"} :
+         \/ \E ca \in CshAlgo(Algos), cs \in CSigs, cp \in CorrPos, h \in {"exact", "larger", "chunked"} :
                r = Mk(op, tg, em, md5, "stream-signed", "na", ca, "na", cs, "na", cp, d, h)
-         \/ \E ca \in TrlCA, ct \in RW, cs \in CSigs, ts \in RW, cp \in CorrPos, h \in {"exact", "larger"} :
+         \/ \E ca \in TrlCA, ct \in RW, cs \in CSigs, ts \in RW, cp \in CorrPos, h \in {"exact", "larger", "chunked"} :
                r = Mk(op, tg, em, md5, "stream-signed-trailer", "na", ca, ct, cs, ts, cp, d, h)
-         \/ \E ca \in TrlCA, ct \in RW, cp \in CorrPos, h \in {"exact", "larger"} :
+         \/ \E ca \in TrlCA, ct \in RW, cp \in CorrPos, h \in {"exact", "larger", "chunked"} :
                r = Mk(op, tg, em, md5, "stream-unsigned-trailer", "na", ca, ct, "na", "na", cp, d, h)
       /\ Consistent(r, Algos)
 Next == UNCHANGED r
@@ -42,7 +42,7 @@ Ord == [absent |-> 1, right |-> 2, wrong |-> 3, na |-> 4, none |-> 5, new |-> 6,
         flipfirst |-> 17, flipmid |-> 18, fliplast |-> 19, truncchunk |-> 20, truncmid |-> 21,
         trunchdr |-> 22, truncfinal |-> 23, extra |-> 24, junk |-> 25, first |-> 26, mid |-> 27,
         last |-> 28, equal |-> 29, larger |-> 30, smaller |-> 31, exact |-> 32,
-        crc32 |-> 33, crc32c |-> 34, sha1 |-> 35, sha256 |-> 36, crc64nvme |-> 37]
+        crc32 |-> 33, crc32c |-> 34, sha1 |-> 35, sha256 |-> 36, crc64nvme |-> 37, chunked |-> 41]
 ModeOrd(m) == CASE m = "stream-signed" -> 38 [] m = "stream-signed-trailer" -> 39
                 [] m = "stream-unsigned-trailer" -> 40 [] OTHER -> Ord[m]
 Hash(x) == ( 3 * Ord[x.op] + 5 * Ord[x.target] + 7 * ModeOrd(x.mode) + 11 * Ord[x.md5] + 13 * Ord[x.sha]
